@@ -56,8 +56,8 @@ CHECKS = {
             'Generated include trees assembled via API (absolute and relative root) and CLI from several cwds incl. one with decoy files; result must '
             'equal the flattened text and not depend on cwd.', '4/C14'),
     'C15': ('fault_enumeration', 'fault injection: one planted faulty line per program, exception class and location checked',
-            'Each fault class x carrier x every line position x include depth x compress; the failure must be AssemblerError naming file and line; '
-            'CLI must exit 1 without traceback.', '4/C15'),
+            'Each fault class x carrier x every line position x include depth x compress in a fixed base program, plus the same fault lines '
+            'planted into thousands of random valid programs; the failure must be AssemblerError naming file and line; CLI must exit 1 without traceback.', '4/C15'),
     'C16': ('exploration', 'history checker: call sequences vs solo results from fresh interpreters; module-table digests; hash-seed sweep',
             'Random call histories over an interfering program pool compared with the solo result of each (program, options) in a fresh process; '
             'digest of module tables before/after every call; PYTHONHASHSEED sweep.', '4/C16'),
@@ -66,7 +66,9 @@ CHECKS = {
             'files must be untouched and exit status non-zero.', '4/C17'),
     'C18': ('exploration', 'simulated DfuSe device (state machine + NOR flash + virtual clock) behind a fake usb module',
             'The real dfu.cli_main runs against the device model over firmware lengths, GD32 variants and busy schedules; final flash, erase/program '
-            'order, busy discipline, poll delays and address bounds are checked from the recorded request log.', '4/C18'),
+            'order, busy discipline, poll delays and address bounds are checked from the recorded request log.  Thorough = every firmware length '
+            '0..flash size of all four variants (245,000 simulated flashes); a run that keeps polling a device with nothing pending (bounded-progress '
+            'budget) or talks to a device that has left DFU mode is a violation.', '4/C18'),
     'C19': ('fault_enumeration', 'device error-status injection at every single and double step',
             'Oversize images must produce no DNLOAD request; every injected error status must lead to a non-zero exit that names the failure, '
             'never "done!".', '4/C19'),
